@@ -41,6 +41,7 @@ type Val struct {
 	Part   int
 	CarryOf *Wide // this value is the carry out of the low-half addition that formed CarryOf
 	Poly    *Poly // exact integer value as a polynomial over inputs and carry variables (nil: unknown); see poly.go
+	PolyMod bool  // Poly equals the value only modulo 2^W (a wrapping intermediate of a recognised modular idiom)
 }
 
 var (
